@@ -505,6 +505,11 @@ func rcParse(log string) [][2][]rcSide {
 	return reports
 }
 
+var rcFaultLocRe = regexp.MustCompile(`/(tscreen|screen|simulation)\.go:(\d+)`)
+
+// the Screen entry points behind the composite ops of the race binary
+var rcOpEntries = map[string][]string{"InitFini": {"Fini", "Suspend", "Resume", "Init"}, "Suspend": {"Suspend", "Resume"}}
+
 var rcMethRe = regexp.MustCompile(`tcell/v2\.\(\*(tScreen|baseScreen|simscreen)\)\.([A-Za-z]+)(\.func\d+)?`)
 
 // rcCanon: the entry point (outermost frame in package tcell that is a method of the screen types) and the site
@@ -774,12 +779,59 @@ func rcRunOnce(line string, attempt int) h.Result {
 			}
 		}
 		attributed := false
-		for _, e := range []string{a, b} {
-			if len(f.flagged[impl+"/"+e]) > 0 && strings.Contains(txt, ")."+e+"(") {
-				reproduced[e] = true
-				add(rcClassName(f, impl, e), fmt.Sprintf("runtime fault while %s and %s run concurrently: %s (%s touches %s without the screen lock)", a, b, what, e, strings.Join(sortedKeysB(f.flagged[impl+"/"+e]), ",")))
-				attributed = true
+		// the fields accessed at the source lines of the faulting goroutine's stack (any entry point's facts)
+		faultFields := map[string]bool{}
+		ftxt := se.String() // the panic / fatal error trace (the race reports go to the GORACE log files)
+		if i := strings.Index(ftxt, "panic:"); i >= 0 {
+			ftxt = ftxt[i:]
+		} else if i := strings.Index(ftxt, "fatal error:"); i >= 0 {
+			ftxt = ftxt[i:]
+		}
+		for _, m := range rcFaultLocRe.FindAllStringSubmatch(ftxt, -1) {
+			n, _ := strconv.Atoi(m[2])
+			for k, xs := range f.facts {
+				if !strings.HasPrefix(k, impl+"/") {
+					continue
+				}
+				for _, x := range xs {
+					if x.conc && x.lines[n] {
+						faultFields[x.field] = true
+					}
+				}
 			}
+		}
+		var involved []string // the entry points the two ops call
+		for _, o := range []string{a, b} {
+			if es, ok := rcOpEntries[o]; ok {
+				involved = append(involved, es...)
+			} else {
+				involved = append(involved, o)
+			}
+		}
+		for _, e := range involved {
+			fl := f.flagged[impl+"/"+e]
+			if len(fl) == 0 || attributed {
+				continue
+			}
+			var hit []string
+			for fld := range fl {
+				if faultFields[fld] {
+					hit = append(hit, fld)
+				}
+			}
+			sort.Strings(hit)
+			if len(hit) == 0 && !strings.Contains(txt, ")."+e+"(") {
+				continue
+			}
+			if e == a || e == b {
+				reproduced[e] = true
+			}
+			cls := rcClassName(f, impl, e)
+			if strings.Contains(what, "WaitGroup") && fl["wg.state"] {
+				cls = "race-loops-overlap" // wg.Add (engage) concurrent with wg.Wait (disengage)
+			}
+			add(cls, fmt.Sprintf("runtime fault while %s and %s run concurrently: %s — the faulting goroutine is at a site that accesses %s, which %s touches without the mutex that guards it (flagged: %s)", a, b, what, strings.Join(hit, ","), e, strings.Join(sortedKeysB(fl), ",")))
+			attributed = true
 		}
 		if !attributed {
 			cls := "fault-panic"
